@@ -32,16 +32,16 @@ FORMATS = ["ugrid", "topo", "mpas", "scrip", "exodus", "esmf", "fv", "geos", "ic
 # ---------------------------------------------------------------------------------------------
 # the property clauses on the implementation's Grid
 
-def pos_close(p, q):
-    if abs(p[1] - q[1]) > TOL:
+def pos_close(p, q, tol=TOL):
+    if abs(p[1] - q[1]) > tol:
         return False
-    if abs(abs(p[1]) - 90.0) <= TOL:
+    if abs(abs(p[1]) - 90.0) <= tol:
         return True                      # at a pole the longitude is immaterial
     d = (p[0] - q[0]) % 360.0
-    return min(d, 360.0 - d) <= TOL
+    return min(d, 360.0 - d) <= tol
 
 
-def ring_equal(got, want, ring_free=False):
+def ring_equal(got, want, ring_free=False, tol=TOL):
     """same corners in the same cyclic order (rotation allowed: the property fixes the cyclic order);
     ring_free additionally allows the reverse orientation (formats that describe a cell, not a ring)"""
     n = len(want)
@@ -52,7 +52,7 @@ def ring_equal(got, want, ring_free=False):
         cands.append(list(reversed(want)))
     for w in cands:
         for s in range(n):
-            if all(pos_close(got[j], w[(j + s) % n]) for j in range(n)):
+            if all(pos_close(got[j], w[(j + s) % n], tol) for j in range(n)):
                 return True
     return False
 
@@ -95,14 +95,19 @@ def spec_check(ex, g):
     if lat.min() < -90.0 or lat.max() > 90.0:
         out.append(("lat_range", "[%r, %r]" % (float(lat.min()), float(lat.max()))))
     ring_free = getattr(ex, "ring_free", False)
+    tol = getattr(ex, "tol", TOL)
     for f, r in enumerate(rows):
         got = [(float(lon[i]), float(lat[i])) for i in real_entries(r)]
         want = ex.face_pos[f]
         if len(got) != len(want):
             out.append(("face_size", "face %d has %d corners, source %d" % (f, len(got), len(want))))
             break
-        if not ring_equal(got, want, ring_free):
+        if not ring_equal(got, want, ring_free, tol):
             out.append(("face_corners", "face %d got %s want %s" % (f, got, want)))
+            break
+        gen = getattr(ex, "generated", None)
+        if gen is not None and len(gen) == len(rows) and not ring_equal(got, gen[f], True, max(tol, 1e-6)):
+            out.append(("face_corners_generated", "face %d got %s, polygon was generated at %s" % (f, got, gen[f])))
             break
     if ex.n_node is not None and n_node != ex.n_node:
         out.append(("n_node", "grid %d source %d" % (n_node, ex.n_node)))
@@ -601,6 +606,26 @@ def sweep_cases(rng, tier):
                 c = _mk("esmf", S.esmf_dialect(rng, am, force={"areas": areas, "start": rng.choice([None, 0, 1])}), am, "sweep")
                 c["order"] = o
                 out.append(c)
+    # corners NEAR the poles (0.02..1 degree) and AT them, above all for the formats that derive lon/lat from xyz
+    for colat in (0.02, 0.1, 0.5, 1.0):
+        for south in (False, True):
+            for centre in (False, True):
+                pm = S.polar_mesh(rng, colat=colat, south=south, centre=centre)
+                out.append(_mk("exodus", S.exodus_dialect(rng, pm, force={"blocks": "runs"}), pm, "sweep"))
+                for entry in ("from_face_vertices", "open_grid"):
+                    c = _mk("fv", S.fv_dialect(rng, pm, force={"coords": "xyz", "container": "ndarray", "entry": entry}), pm, "sweep")
+                    c["order"] = rng.randrange(len(ORDERS))
+                    out.append(c)
+                out.append(_mk("mpas", S.mpas_dialect(rng, pm, force={"dual": False, "xyz": True}), pm, "sweep"))
+                out.append(_mk(rng.choice(["ugrid", "topo", "scrip", "esmf"]), None, pm, "sweep"))
+                out[-1]["dialect"] = getattr(S, out[-1]["fmt"] + "_dialect")(rng, pm)
+    # GeoJSON / shapefile in several CRSs: none, WGS84, NAD83 (geographic), web mercator and a UTM zone (projected)
+    reg = [S.regional(by["quad+tri"], 13.0, 47.0, 2.0, 4.0), S.regional(by["cube"], 15.0, 50.0, 2.5, 8.0),
+           S.regional(by["octa+tri@am"], 14.0, 40.0, 1.5, 3.0)]
+    for am in reg:
+        for kind, crss in (("geojson", (4326, 4269, 3857, 32633)), ("shp", (None, 4326, 4269, 3857, 32633))):
+            for crs in crss:
+                out.append(_mk("geo", S.geo_dialect(rng, am, force={"kind": kind, "crs": crs, "multi": rng.choice([0, 1])}), am, "sweep"))
     # GEOS-CS
     for nf in (1, 2, 6):
         for ny in (2, 3, 4):
@@ -631,6 +656,12 @@ def random_case(rng, big=False):
         am = S.gen_amesh(rng, max_ops=ops)
     if fmt == "geo" and am.n_face > 40:
         am = S.gen_amesh(rng, max_ops=6)
+    if fmt in ("exodus", "fv", "ugrid", "topo", "scrip", "esmf", "mpas") and rng.random() < 0.07:
+        am = S.polar_mesh(rng)
+    if fmt == "geo" and rng.random() < 0.35:
+        am = S.regional(am, rng.uniform(12.5, 14.0), rng.uniform(35.0, 55.0), 2.0, rng.uniform(2.0, 8.0))
+        d = S.geo_dialect(rng, am, force={"crs": rng.choice([4269, 3857, 32633])})
+        return _mk(fmt, d, am, "random")
     if fmt in ("ugrid", "topo", "esmf", "exodus") and rng.random() < 0.06:
         am = S.add_orphan0(am)
     d = getattr(S, fmt + "_dialect")(rng, am)
@@ -809,7 +840,7 @@ def model_jobs(c, src, ex, image, g):
         if g is not None:
             lon = np.asarray(ds["node_lon"].values, dtype=float).tolist()
             lat = np.asarray(ds["node_lat"].values, dtype=float).tolist()
-        jobs.append(("geo", sx([w, feats]), "geo", (tk, lon, lat, impl_table("face_node_connectivity"))))
+        jobs.append(("geo", sx([w, feats]), "geo", (tk, lon, lat, impl_table("face_node_connectivity"), getattr(ex, "tol", TOL))))
     return jobs
 
 
@@ -842,12 +873,16 @@ def compare(kind, mo, payload):
         if it != mo[1]:
             return "table: impl %s model %s" % (str(it)[:300], str(mo[1])[:300])
     elif kind == "geo":
-        tk, lon, lat, it = payload
+        tk, lon, lat, it, tol = payload
         if it is None:
             return "no implementation result"
         ml = [tk.f(a) for a in mo[0]]
         mb = [tk.f(a) for a in mo[1]]
-        if ml != lon or mb != lat:
+        if tol > TOL:        # projected source: the reader's to_crs against the harness's own inverse projection
+            same = len(ml) == len(lon) and all(abs(a - b) <= tol for a, b in zip(ml + mb, lon + lat))
+        else:
+            same = ml == lon and mb == lat
+        if not same:
             return "node lists: impl %s / %s model %s / %s" % (str(lon)[:200], str(lat)[:200], str(ml)[:200], str(mb)[:200])
         if it != mo[2]:
             return "table: impl %s model %s" % (str(it)[:300], str(mo[2])[:300])
@@ -1134,6 +1169,8 @@ def main(ck):
                                     "face_size", "face_corners (cyclic order, rotation free)", "n_node", "aux_rows",
                                     "aux_index_range", "aux_coords", "aux_lon_range", "aux_areas", "aux_npf", "aux_dims",
                                     "aux_missing", "aux_distances", "aux_xyz", "ds_vs_property", "raises",
+                                    "face_corners_generated (GeoJSON/shapefile: decoded corners = the lon/lat the polygons were "
+                                    "generated at, 1e-6 deg through a projected CRS)",
                                     "after_reads_<clause> (every clause again after all derivable attributes were read)",
                                     "second_open_differs", "second_open_raises",
                                     "other_mode_<clause> (MPAS primal after dual / dual after primal on one dataset)",
